@@ -364,14 +364,14 @@ theorem callsGuarded_of_safeCheck (c : RtCtx) (h : c.safeCheck = true) : c.Calls
     rw [this]; rfl
   · have hs' : 0 ≤ s ∧ s.toNat < c.M.states.size := by omega
     simp only [RtCtx.safeCheck, Bool.and_eq_true, List.all_eq_true, List.mem_range] at h
-    have := h.2 s.toNat hs'.2 x hx
+    have := h.1.2 s.toNat hs'.2 x hx
     rwa [Int.toNat_of_nonneg hs'.1] at this
 
 theorem sizesOK_of_safeCheck (c : RtCtx) (h : c.safeCheck = true) : c.SizesOK := by
   intro i
   by_cases hi : i < c.M.outs.size
   · simp only [RtCtx.safeCheck, Bool.and_eq_true, List.all_eq_true, List.mem_range] at h
-    have := h.1 i hi
+    have := (h.1.1 i hi).1
     simp only [Bool.and_eq_true, decide_eq_true_eq, Bool.or_eq_true, Bool.not_eq_true'] at this
     refine ⟨this.1.1, fun hnt => ?_⟩
     rcases this.1.2 with h2 | h2
@@ -471,5 +471,146 @@ theorem C03_end_safe (c : RtCtx) (hsafe : c.safeCheck = true) (σ : CState) (h :
     (callsGuarded_of_safeCheck c hsafe σ.state symEnd (by decide)) h
   simp only [RtCtx.endCall]
   split <;> exact inv_state c _ _ h1
+
+/-! ### `start()` establishes the invariant -/
+
+theorem foldl_setIfInBounds_size (vals : Nat → Option Nat) :
+    ∀ (ks : List Nat) (a : Array (Option Nat)),
+      (ks.foldl (fun a k => a.setIfInBounds k (vals k)) a).size = a.size := by
+  intro ks
+  induction ks with
+  | nil => intro a; rfl
+  | cons k rest ih => intro a; simp only [List.foldl_cons]; rw [ih]; simp
+
+theorem defStr_fits_of_safeCheck (c : RtCtx) (h : c.safeCheck = true) (i : Nat) (hi : i < c.M.outs.size)
+    (bs : List Nat) (hd : (c.M.outs.getD i default).defStr = some bs) : bs.length ≤ (c.ty i).cap := by
+  simp only [RtCtx.safeCheck, Bool.and_eq_true, List.all_eq_true, List.mem_range] at h
+  have := (h.1.1 i hi).1.2
+  rw [hd] at this
+  simpa [RtCtx.ty] using this
+
+theorem buf_noDefInt_of_safeCheck (c : RtCtx) (h : c.safeCheck = true) (i : Nat) (hi : i < c.M.outs.size)
+    (hb : (c.M.outs.getD i default).ty.isBuf = true) : (c.M.outs.getD i default).defInt = none := by
+  simp only [RtCtx.safeCheck, Bool.and_eq_true, List.all_eq_true, List.mem_range] at h
+  have := (h.1.1 i hi).2
+  simp only [Bool.or_eq_true, Bool.not_eq_true', Option.isNone_iff_eq_none] at this
+  rcases this with h1 | h1
+  · rw [hb] at h1; cases h1
+  · exact h1
+
+/-- changing the bytes (same size) and the counter (within capacity) keeps the buffer invariant -/
+theorem bufP_update (c : RtCtx) (i : Nat) (b : StrBuf) (bytes' : Array (Option Nat)) (n : Nat)
+    (hsz : bytes'.size = b.bytes.size) (hn : n ≤ (c.ty i).cap)
+    (h2 : b.writable = true → b.bytes.size = (c.ty i).size)
+    (h3 : b.alloc = .null → c.realloc i = true) (h4 : b.alloc ≠ .freed) :
+    BufP c i { b with bytes := bytes', counter := n } :=
+  ⟨hn, fun hw => by rw [hsz]; exact h2 hw, h3, h4⟩
+
+theorem baseBuf_facts (c : RtCtx) (σ0 : CState) (i : Nat)
+    (hdi : (c.M.outs.getD i default).defInt = none) :
+    ((c.baseBuf σ0 i).writable = true → (c.baseBuf σ0 i).bytes.size = (c.ty i).size) ∧
+    ((c.baseBuf σ0 i).alloc = .null → c.realloc i = true) ∧
+    (c.baseBuf σ0 i).alloc ≠ .freed ∧ (c.baseBuf σ0 i).counter = 0 := by
+  have hty : (c.M.outs.getD i default).ty.size = (c.ty i).size := rfl
+  unfold RtCtx.baseBuf
+  simp only []
+  by_cases hdyn : c.isDyn i = true
+  · rw [if_pos hdyn]
+    cases hd : (c.M.outs.getD i default).defStr with
+    | some bs =>
+      rw [if_pos (by simp)]
+      exact ⟨(fun _ => by simpa using hty), (fun hn => by cases hn), (by simp), rfl⟩
+    | none =>
+      rw [if_neg (by simp)]
+      by_cases hod : c.ro.onDemand = true
+      · rw [if_pos hod]
+        refine ⟨(fun hw => by simp [StrBuf.writable] at hw), (fun _ => ?_), (by simp), rfl⟩
+        simp only [RtCtx.realloc, hod, hdyn, RtCtx.hasDefault, hd, hdi, Option.isSome_none, Bool.or_self,
+          Bool.not_false, Bool.true_or, Bool.and_self]
+      · rw [if_neg hod]
+        exact ⟨(fun _ => by simpa using hty), (fun hn => by cases hn), (by simp), rfl⟩
+  · rw [if_neg hdyn]
+    refine ⟨(fun _ => ?_), (fun hn => by cases hn), (by simp), rfl⟩
+    show (if _ then _ else _ : Array (Option Nat)).size = _
+    by_cases hsz : (σ0.strs.getD i default).bytes.size = (c.M.outs.getD i default).ty.size
+    · rw [if_pos hsz, hsz]; exact hty
+    · rw [if_neg hsz]; simpa using hty
+
+/-- Every buffer `start()` sets up satisfies the buffer invariant. -/
+theorem initBuf_ok (c : RtCtx) (h : c.safeCheck = true) (σ0 : CState) (i : Nat) (hi : i < c.M.outs.size) :
+    BufP c i (c.initBuf σ0 i) := by
+  unfold RtCtx.initBuf
+  simp only []
+  by_cases hbuf : (c.M.outs.getD i default).ty.isBuf = true
+  · rw [if_neg (by rw [hbuf]; simp)]
+    obtain ⟨f2, f3, f4, f5⟩ := baseBuf_facts c σ0 i (buf_noDefInt_of_safeCheck c h i hi hbuf)
+    cases hd : (c.M.outs.getD i default).defStr with
+    | none =>
+      show BufP c i (if _ then _ else _)
+      by_cases hc : ((c.M.outs.getD i default).ty.nullTerm && (c.baseBuf σ0 i).alloc != Alloc.null) = true
+      · rw [if_pos hc]
+        exact bufP_update c i (c.baseBuf σ0 i) ((c.baseBuf σ0 i).bytes.setIfInBounds 0 (some 0)) (c.baseBuf σ0 i).counter
+          (by simp) (by rw [f5]; omega) f2 f3 f4
+      · rw [if_neg hc]
+        exact ⟨(by rw [f5]; omega), f2, f3, f4⟩
+    | some bs =>
+      have hfit := defStr_fits_of_safeCheck c h i hi bs hd
+      refine bufP_update c i (c.baseBuf σ0 i) _ bs.length ?_ hfit f2 f3 f4
+      by_cases hnt : (c.M.outs.getD i default).ty.nullTerm = true
+      · rw [if_pos hnt]
+        simp only [Array.size_setIfInBounds]
+        exact foldl_setIfInBounds_size (fun k => some (bs.getD k 0)) _ _
+      · rw [if_neg hnt]
+        exact foldl_setIfInBounds_size (fun k => some (bs.getD k 0)) _ _
+  · have hbuf' : (c.M.outs.getD i default).ty.isBuf = false := by simpa using hbuf
+    rw [if_pos (by rw [hbuf']; rfl)]
+    have hsz : (c.ty i).size = 0 := by
+      have : (c.M.outs.getD i default).ty = c.ty i := rfl
+      rw [this] at hbuf'
+      cases hc : c.ty i <;> simp_all [OutTy.isBuf, OutTy.size]
+    refine ⟨(by simp [show (default : StrBuf).counter = 0 from rfl]), ?_, ?_, ?_⟩
+    · intro _; simp [show (default : StrBuf).bytes = #[] from rfl, hsz]
+    · intro hn; exact absurd hn (by simp [show (default : StrBuf).alloc = .inStruct from rfl])
+    · simp [show (default : StrBuf).alloc = .inStruct from rfl]
+
+theorem default_buf_ok (c : RtCtx) (i : Nat) (hi : ¬ i < c.M.outs.size) : BufP c i default := by
+  have hty : c.ty i = OutTy.bool := by
+    simp [RtCtx.ty, Array.getD_eq_getD_getElem?, Array.getElem?_eq_none (by omega : c.M.outs.size ≤ i)]
+    rfl
+  refine ⟨by simp [show (default : StrBuf).counter = 0 from rfl], ?_, ?_, ?_⟩
+  · intro _; simp [show (default : StrBuf).bytes = #[] from rfl, hty, OutTy.size]
+  · intro hn; exact absurd hn (by simp [show (default : StrBuf).alloc = .inStruct from rfl])
+  · simp [show (default : StrBuf).alloc = .inStruct from rfl]
+
+theorem initStore_inv (c : RtCtx) (h : c.safeCheck = true) (σ0 : CState) (hm : σ0.memFault = false) :
+    Inv c (c.initStore σ0) := by
+  refine ⟨hm, fun i => ?_⟩
+  by_cases hi : i < c.M.outs.size
+  · have : (c.initStore σ0).str i = c.initBuf σ0 i := by
+      simp [CState.str, RtCtx.initStore, Array.getD_eq_getD_getElem?, hi]
+    rw [this]; exact initBuf_ok c h σ0 i hi
+  · have : (c.initStore σ0).str i = default := by
+      simp [CState.str, RtCtx.initStore, Array.getD_eq_getD_getElem?, hi]
+    rw [this]; exact default_buf_ok c i hi
+
+/-- **`start()` establishes the invariant**: for a machine passing `safeCheck`, whatever the state
+    struct held before (its memory-fault flag aside), after `start()` every buffer satisfies the
+    buffer invariant and no memory fault has occurred — the hypothesis `Inv` of
+    `C03_no_memory_fault` is what every session begins with. -/
+theorem C03_start_establishes_inv (c : RtCtx) (hsafe : c.safeCheck = true) (σ0 : CState)
+    (hm : σ0.memFault = false) : Inv c (c.start σ0).1 := by
+  have hg : guardedB c c.startTree = true := by
+    simp only [RtCtx.safeCheck, Bool.and_eq_true] at hsafe
+    exact hsafe.2
+  have h1 := runTree_inv c (sizesOK_of_safeCheck c hsafe) true c.startTree (c.initStore σ0) hg
+    (initStore_inv c hsafe σ0 hm)
+  simp only [RtCtx.start]
+  split <;> exact inv_state c _ _ h1
+
+/-- From a fresh struct through `start()` and any chunked input: no memory fault. -/
+theorem C03_session_safe (c : RtCtx) (hsafe : c.safeCheck = true) (σ0 : CState) (hm : σ0.memFault = false)
+    (cs : List (List Nat)) (fuel : Nat) (hb : ∀ ch ∈ cs, ∀ b ∈ ch, b < nSym) :
+    (c.runChunks fuel (c.start σ0).1 cs 0).σ.memFault = false :=
+  C03_no_memory_fault c hsafe cs fuel _ 0 hb (C03_start_establishes_inv c hsafe σ0 hm)
 
 end Nmfu
